@@ -2,6 +2,7 @@ package wm
 
 import (
 	"fmt"
+	"sort"
 	"strings"
 	"time"
 
@@ -21,15 +22,17 @@ func c11Oracle(w *World, last Op) string {
 	}
 	if last.K == 'C' || last.K == 'G' || last.K == 'B' || last.K == 'T' {
 		if f := recoverable(w.S, *c, "after "+last.String()); f != "" {
+			w.FailCP, w.FailStore = c, w.S
 			return f
 		}
 	}
 	// crash points: every prefix of the log that ends inside the writes of the last operation
 	log := w.S.Snapshot()
 	prev := 0
-	if len(w.Commits) >= 2 && last.K == 'C' {
+	appended := last.K == 'C' || last.K == 'B' || last.K == 'T' // these add a commit point
+	if len(w.Commits) >= 2 && appended {
 		prev = w.Commits[len(w.Commits)-2].logLen
-	} else if last.K == 'C' {
+	} else if appended {
 		prev = 0
 	} else {
 		prev = c.logLen
@@ -48,11 +51,9 @@ func c11Oracle(w *World, last Op) string {
 		if durable == nil {
 			continue
 		}
-		if w.RolledBack && w.Chk != nil {
-			durable = w.Chk // after a rollback the checkpoint is the committed state
-		}
 		s := dev.FromLog(log[:cut])
 		if f := recoverable(s, *durable, fmt.Sprintf("crash after %d of %d storage writes (during %s)", cut, len(log), last)); f != "" {
+			w.FailCP, w.FailStore = durable, s
 			return f
 		}
 	}
@@ -65,7 +66,68 @@ func c11Classify(w *World, last Op, f string) seq.Outcome {
 	if rt.OpenFinding("C11-gc-ahead-of-commit") && last.K == 'G' && w.GCPending >= 2 && notFound && strings.Contains(f, "trie reopened from root") {
 		return seq.Outcome{Verdict: seq.Known, Finding: "C11-gc-ahead-of-commit", Msg: f}
 	}
+	if w.FailCP != nil && notFound {
+		lost, ok := lostNodes(w, w.FailCP, w.FailStore)
+		if ok && len(lost) > 0 {
+			rew := rewrittenWhilePresent(w.S.Snapshot())
+			all := true
+			for _, h := range lost {
+				if !rew[h] {
+					all = false
+				}
+			}
+			id := "C11-rewritten-node-collected"
+			if last.K == 'B' || last.K == 'T' {
+				id = "C13-rewritten-node-deleted"
+			}
+			if all && rt.OpenFinding(id) {
+				return seq.Outcome{Verdict: seq.Known, Finding: id, Msg: f + fmt.Sprintf(" (lost nodes %x were written again with identical content by a later commit)", lost)}
+			}
+			f += fmt.Sprintf(" (lost nodes: %x)", lost)
+		}
+	}
 	return seq.Outcome{Verdict: seq.Violation, Msg: f}
+}
+
+// lostNodes: the storage keys that recovering commit point cp needs (measured by
+// recovering it on the storage as it was right after that commit) and that the
+// storage st no longer holds. ok=false if cp was not recoverable even then.
+func lostNodes(w *World, cp *commitPoint, st *dev.Store) ([]string, bool) {
+	log := w.S.Snapshot()
+	if cp.madeAt > len(log) {
+		return nil, false
+	}
+	then := dev.FromLog(log[:cp.madeAt])
+	then.RecordGets = map[string]bool{}
+	if f := Observe(Reopened(then, cp.root, cp.weight), cp.m, true); f != "" {
+		return nil, false
+	}
+	var lost []string
+	for k := range then.RecordGets {
+		if !st.Has([]byte(k)) {
+			lost = append(lost, k)
+		}
+	}
+	sort.Strings(lost)
+	return lost, true
+}
+
+// rewrittenWhilePresent: keys that some write record Put although they were already stored.
+func rewrittenWhilePresent(log []dev.Rec) map[string]bool {
+	present, rew := map[string]bool{}, map[string]bool{}
+	for _, r := range log {
+		for _, op := range r.Ops {
+			if op.Del {
+				delete(present, op.K)
+			} else {
+				if present[op.K] {
+					rew[op.K] = true
+				}
+				present[op.K] = true
+			}
+		}
+	}
+	return rew
 }
 
 // C11: committed trie recoverable; garbage collection keeps live nodes.
